@@ -8,12 +8,14 @@ use std::io::{BufRead, Write};
 mod util;
 mod asyncsel;
 mod files;
+mod pkggen;
 
 fn main() {
     let engine = std::env::args().nth(1).expect("engine");
     let f: fn(&str) -> String = match engine.as_str() {
         "asyncsel" => asyncsel::handle,
         "files" => files::handle,
+        "pkggen" => pkggen::handle,
         other => panic!("unknown engine {other}"),
     };
     // generators panic on purpose on some inputs; keep stderr quiet, the answer says `panic`
